@@ -80,6 +80,14 @@ def ob_lemma(ctx: Ctx) -> Outcome:
     return Outcome.refuted("explicit interleaving", [Witness(what=f"{len(bad)} of {n} interleavings of two writers' steps {STEPS} let both succeed, e.g. schedule {bad[0]} (both re-read before either replaces); replay: {text}", input=bad[0], key="both-succeed|between-final-reread-and-replace", replay={"runner": "props.C17:replay_two_writers", "args": {}}, confirmed=failed, verifier_output=f"counter-schedules: {bad[:5]} ...; {shortest}")], count=n, discharged=n - len(bad))
 
 
+def ob_failed_noop(ctx: Ctx) -> Outcome:
+    failed, text = FP.probe_failed_calls_noop(cores=1)
+    extra = dict(bound=f"scenarios {list(FP.NOOP_SCENARIOS)} x every file-system call boundary x 5 errnos + kill before/after; oracle: status=error => tree snapshot unchanged, no temp file", evaluations=int(text.split(" ")[0]) if text.split(" ")[0].isdigit() else 1, distinct_nontrivial=len(FP.NOOP_SCENARIOS), rule="a case is one fault / kill point of one scenario")
+    if failed:
+        return Outcome.refuted("real write paths under fault injection", [Witness(what=text, key="failed-call-changed-the-tree", input=text[:80], replay={"runner": "props.fsproto:probe_failed_calls_noop", "args": {}}, confirmed=True)], **extra)
+    return Outcome.ok("real write paths under fault injection", **extra)
+
+
 def obligations(ctx: Ctx):
     P = PROPERTY
     obs = [
@@ -88,12 +96,14 @@ def obligations(ctx: Ctx):
         Ob(f"{P}.F3", "F", "WriteTool.execute has no await point", FUNCS[:1], FP.ob_no_await),
         Ob(f"{P}.F4", "F", "write block of execute: re-read + compare right before os.replace; failing branch unlinks the temp file", FUNCS[:1], FP.ob_protocol(FP.WRITE, "WriteTool.execute", "target_path", "canonical_content", "wt_overwrite_hashok")),
         Ob(f"{P}.F5", "F", "write block of atomic_write_octave: the same", FUNCS[1:], FP.ob_protocol(FP.FOPS, "atomic_write_octave", "target_path", "content", "at_overwrite_hashok")),
+        Ob(f"{P}.F6", "F", "the cleanup after a failed write removes only the directories this call created (rmdir of the listed ones; no upward or recursive removal)", [FP.FOPS + ":remove_created_dirs", FP.FOPS + ":missing_parent_dirs"], FP.ob_cleanup_frame),
         Ob(f"{P}.L1", "L", "of two writers holding the same base_hash at most one succeeds (all interleavings of the six protocol steps)", FUNCS, ob_lemma),
     ]
     try:
         from props import C17_b
 
         obs.append(Ob(f"{P}.B1", "B", "histories of writes / dry calls / external modifications against a register model", FUNCS, C17_b.ob_histories, timeout=6000))
+        obs.append(Ob(f"{P}.B3", "B", "every fault / kill point of the missing-parent, read-only and hash-mismatch scenarios: a call that returns an error leaves the whole tree (pre-existing empty directories included) as it was", FUNCS, ob_failed_noop, timeout=3000))
         obs.append(Ob(f"{P}.B2", "B", "a second actor (external write, delete, second octave_write with the same base_hash) at every call boundary of the writer", FUNCS, C17_b.ob_second_actor, timeout=6000))
     except ImportError:
         pass
